@@ -94,5 +94,21 @@ Complete == (AllDone(P, cur) \/ Finished(P, cur)) =>
 
 AcceptorComplete == acc # {} /\ (AllDone(P, cur) => \E c \in acc : Finished(P, c))
 
+\* ---- the attributed judgement (Player!AttrLin, used by Trace_PlayerBig on plays with distinguishable messages) agrees
+\* with the text of the property (Player!AttrQuad) on the sends of every behaviour, complete or not, and on corrupted
+\* copies: two neighbours swapped, one send dropped, one doubled, one attributed to the event after it, one made early
+Obs(k) == [i |-> sent[k].i, p |-> sent[k].p, port |-> sent[k].port, m |-> Ev(sent[k]).m, at |-> sent[k].at]
+ObsSeq == [k \in 1..Len(sent) |-> Obs(k)]
+Corrupted(s) ==
+  {s} \cup {[s EXCEPT ![k] = s[k + 1], ![k + 1] = s[k]] : k \in 1..(Len(s) - 1)}
+      \cup {SubSeq(s, 1, k - 1) \o SubSeq(s, k + 1, Len(s)) : k \in 1..Len(s)}
+      \cup {SubSeq(s, 1, k) \o SubSeq(s, k, Len(s)) : k \in 1..Len(s)}
+      \cup {[s EXCEPT ![k].p = @ + 1] : k \in 1..Len(s)}
+      \cup {[s EXCEPT ![k].at = @ - 1] : k \in 1..Len(s)}
+      \cup {[s EXCEPT ![k].port = @ + 1] : k \in 1..Len(s)}
+AttrAgrees == \A s \in Corrupted(ObsSeq) : AttrLin(P, s) = AttrQuad(P, s)
+\* ... and a finished behaviour of the player satisfies it (so the binding raises no alarm on a correct play)
+AttrAccepts == AllDone(P, cur) => AttrLin(P, ObsSeq)
+
 AllWellFormed == WellFormed(P)
 =============================================================================
